@@ -5,7 +5,7 @@ from hypothesis import strategies as st
 from vlib.gen.mutate import walk
 
 KINDS = ["permute-definitions", "permute-selections", "permute-arguments", "permute-variable-definitions",
-         "rename-aliases", "rename-fragments", "rename-variables", "rename-operations", "respace"]
+         "rename-aliases", "rename-fragments", "rename-variables", "rename-operations", "respace", "name-collisions"]
 
 
 def apply(draw, doc, kind, A):
@@ -30,16 +30,53 @@ def apply(draw, doc, kind, A):
             if isinstance(n, A.Field):
                 key = n.alias.value if n.alias else n.name.value
                 n.alias = A.Name(value="r_" + key)
-    elif kind == "rename-fragments":
+    elif kind in ("rename-fragments", "rename-variables", "rename-operations"):
+        # a consistent, injective renaming; the new names are drawn from the names the document already uses in its
+        # OTHER namespaces (operations, fragments and variables do not share one) plus keywords that are legal names
+        ops = [n.name.value for n in nodes if isinstance(n, A.OperationDefinition) and n.name is not None]
+        frs = [n.name.value for n in nodes if isinstance(n, A.FragmentDefinition)]
+        vrs = [n.variable.name.value for n in nodes if isinstance(n, A.VariableDefinition)]
+        if kind == "rename-fragments":
+            targets = [n for n in nodes if isinstance(n, (A.FragmentDefinition, A.FragmentSpread))]
+            get, pool, prefix = (lambda n: n.name.value), ops + vrs, "Fr_"
+        elif kind == "rename-variables":
+            targets = [n for n in nodes if isinstance(n, A.Variable)]
+            get, pool, prefix = (lambda n: n.name.value), ops + frs, "vr_"
+        else:
+            targets = [n for n in nodes if isinstance(n, A.OperationDefinition) and n.name is not None]
+            get, pool, prefix = (lambda n: n.name.value), frs + vrs, "Op_"
+        olds = sorted({get(n) for n in targets})
+        pool = [x for x in dict.fromkeys(pool + ["query", "fragment", "type", "Query", "true_", "x"]) if x != "on"]
+        k = draw(st.integers(0, 3))
+        # 0: plain prefixes; 1: any names of the pool; 2-3: the other namespaces' names first (a fragment called like the
+        # operation that spreads it, a variable called like a fragment, ...)
+        picks = [] if k == 0 else list(draw(st.permutations(pool)))[:len(olds)] if k == 1 else \
+            (list(draw(st.permutations(pool[:len(pool) - 6]))) + pool[len(pool) - 6:])[:len(olds)]
+        olds = list(draw(st.permutations(olds)))
+        mapping = {}
+        for i, o in enumerate(olds):
+            mapping[o] = picks[i] if i < len(picks) else prefix + o
+        if len(set(mapping.values())) < len(mapping):
+            mapping = {o: prefix + o for o in olds}
+        for n in targets:
+            n.name = A.Name(value=mapping[get(n)])
+    elif kind == "name-collisions":
+        # consistent renaming that makes names of different namespaces coincide: a fragment takes the name of a (named)
+        # operation that spreads it directly; the other fragments take variable names
+        frs = {n.name.value: n for n in nodes if isinstance(n, A.FragmentDefinition)}
+        vrs = sorted({n.variable.name.value for n in nodes if isinstance(n, A.VariableDefinition)})
+        mapping = {}
+        for op in nodes:
+            if isinstance(op, A.OperationDefinition) and op.name is not None and op.name.value not in frs and op.name.value not in mapping.values():
+                direct = [x.name.value for x in op.selection_set.selections if isinstance(x, A.FragmentSpread) and x.name.value in frs
+                          and x.name.value not in mapping]
+                if direct:
+                    mapping[draw(st.sampled_from(sorted(set(direct))))] = op.name.value
+        free = [v for v in vrs if v not in frs and v not in mapping.values()]
+        for f in sorted(frs):
+            if f not in mapping and free:
+                mapping[f] = free.pop(0)
         for n in nodes:
-            if isinstance(n, (A.FragmentDefinition, A.FragmentSpread)):
-                n.name = A.Name(value="Fr_" + n.name.value)
-    elif kind == "rename-variables":
-        for n in nodes:
-            if isinstance(n, A.Variable):
-                n.name = A.Name(value="vr_" + n.name.value)
-    elif kind == "rename-operations":
-        for n in nodes:
-            if isinstance(n, A.OperationDefinition) and n.name is not None:
-                n.name = A.Name(value="Op_" + n.name.value)
+            if isinstance(n, (A.FragmentDefinition, A.FragmentSpread)) and n.name.value in mapping:
+                n.name = A.Name(value=mapping[n.name.value])
     return doc
